@@ -6,3 +6,7 @@ import IrisVerif.Driver.C11
 import IrisVerif.Model.QMat
 import IrisVerif.Props.C05
 import IrisVerif.Driver.C05
+import IrisVerif.Props.C02
+import IrisVerif.Driver.C02
+import IrisVerif.Props.C07
+import IrisVerif.Driver.C07
